@@ -36,7 +36,7 @@ LEVEL = "exploration"
 RULE = (
     "packet b'abc\\n' (and two packets for iterators) split into 1..3 bursts at every cut; burst delays: ALL tuples over {0, 0.4, 1.0, "
     "2.5, never}; T in {0, 0.3, 2.2, 5, None} x retry_interval in {inf, 0.7} x subjects {StreamEndpoint copy/buffered, "
-    "TCPNetworkClient, UDPNetworkClient (one datagram), ClientRecvIterator, AsyncClientRecvIterator}; spurious readable events as "
+    "TCPNetworkClient, UDPNetworkClient (one datagram), ClientRecvIterator, AsyncClientRecvIterator}, max_recv_size 64 and 1/2 (reads that fill the buffer exactly); spurious readable events as "
     "costed deviations (bound 2); schedules with an arrival within 1 ms of a deadline are skipped and counted (ties are "
     "unspecified); distinct_nontrivial = distinct (subject, T, retry, arrival schedule, outcome, number of waits)"
 )
@@ -145,10 +145,10 @@ def run_recv(ctx: Ctx, cfg: dict) -> dict:
         if subject in ("ep-copy", "ep-buf"):
             proto: Any = StreamProtocol(StringLineSerializer()) if subject == "ep-copy" else BufferedStreamProtocol(StringLineSerializer(limit=32))
             tr = SocketStreamTransport(sock, retry, selector_factory=lambda: VSelector(world))
-            subj: Any = StreamEndpoint(tr, proto, max_recv_size=64)
+            subj: Any = StreamEndpoint(tr, proto, max_recv_size=cfg.get("rsize", 64))
         elif subject in ("tcp", "tcp-iter"):
             _base_selector.selectors = _shim_selectors(world)  # type: ignore[assignment]
-            subj = TCPNetworkClient(sock, StreamProtocol(StringLineSerializer()), retry_interval=retry)
+            subj = TCPNetworkClient(sock, StreamProtocol(StringLineSerializer()), retry_interval=retry, max_recv_size=cfg.get("rsize", 64))
         else:
             _base_selector.selectors = _shim_selectors(world)  # type: ignore[assignment]
             subj = UDPNetworkClient(sock, DatagramProtocol(StringLineSerializer()), retry_interval=retry)
@@ -261,6 +261,13 @@ def configs(tier: str) -> list[dict]:
             for retry in RETRIES:
                 for s in scheds1:
                     out.append({"subject": subject, "T": T, "retry": retry, "sched": s})
+    # reads that fill the receive buffer exactly (max_recv_size 1 or 2 with bursts of that size)
+    for subject in ("ep-copy", "ep-buf", "tcp"):
+        for rsize in (1, 2):
+            for T in (0.3, 2.2, 5.0):
+                for s in scheds1:
+                    if all(n % rsize == 0 or a is None for a, n in s) and len(s) >= 2:
+                        out.append({"subject": subject, "T": T, "retry": None, "sched": s, "rsize": rsize})
     for T in TIMEOUTS:
         for retry in RETRIES:
             for d in DELAYS:
@@ -376,7 +383,7 @@ def run_job(job: dict) -> JobResult:
             res.evaluations += 1
             bad = oracle(cfg, obs)
             res.outcome((obs["events"][-1][0] if obs["events"] else "none") if bad is None else "VIOLATION:" + bad)
-            res.nontrivial.add(digest((cfg["subject"], cfg["T"], cfg["retry"], tuple(cfg["sched"]), tuple(e[0] for e in obs["events"]), len(obs["waits"]), obs["spurious"])))
+            res.nontrivial.add(digest((cfg["subject"], cfg["T"], cfg["retry"], cfg.get("rsize"), tuple(cfg["sched"]), tuple(e[0] for e in obs["events"]), len(obs["waits"]), obs["spurious"])))
             if bad is not None and (bad not in found or len(ctx.choices) < len(found[bad][0].choices)):
                 found[bad] = (ctx, obs)
 
@@ -385,7 +392,7 @@ def run_job(job: dict) -> JobResult:
         for bad, (ctx, obs) in found.items():
             res.violations.append(Violation(
                 _key(cfg, bad),
-                f"{cfg['subject']} T={cfg['T']} retry_interval={cfg['retry']} arrivals={cfg['sched']}{' (short reads)' if cfg.get('short_reads') else ''}: events={obs['events']} "
+                f"{cfg['subject']} T={cfg['T']} retry_interval={cfg['retry']} max_recv_size={cfg.get('rsize', 64)} arrivals={cfg['sched']}{' (short reads)' if cfg.get('short_reads') else ''}: events={obs['events']} "
                 f"waits={obs['waits']} expected completion at {completion_times(cfg)} choices={ctx.choices}",
                 {"cfg": cfg, "choices": list(ctx.choices)},
             ))
